@@ -29,8 +29,9 @@
                   return fn(*args, **kwargs)
               except Error as e:
                   if include_original_exception:
-                      orig_exp = e.__context__
-                      if orig_exp is not None: orig_exp.__traceback__ = orig_exp.__traceback__.tb_next
+                      orig_exp = e.__cause__        # since repo fix D43 (before: e.__context__, finding D40)
+                      if orig_exp is not None and orig_exp.__traceback__ is not None:
+                          orig_exp.__traceback__ = orig_exp.__traceback__.tb_next
                       reason = orig_exp
                   else: reason = None
                   raise type(e)(error_msg=e.error_msg, node=e.node, path=e.path, extra_node=e.extra_node, note=e.note) from reason
@@ -40,9 +41,9 @@
 
   An exception is a value: class, `str()` text, payload, `__cause__`, `__context__`, `__suppress_context__`.  Python's rules used:
   `raise X from Y` inside `except … as e` gives `X.__cause__ = Y`, `X.__context__ = e`, `X.__suppress_context__ = True`; a bare
-  `raise` and an exception that merely passes a `with` block are unchanged.  `api_entry` takes the reason from `e.__context__`
-  (NOT `__cause__`).  Tracebacks are not modelled (`tb_next`; an exception whose `__traceback__` is None as `__context__` of an
-  error that crosses an active api entry makes the real code raise AttributeError — outside the domain, see DESIGN/report).
+  `raise` and an exception that merely passes a `with` block are unchanged.  `api_entry` takes the reason from `e.__cause__` (repo fix D43; it
+  used to be `e.__context__`, which for an error raised directly is whatever the CALLER is handling: finding D40).  Tracebacks
+  are not modelled (the one-frame trim of the reason's traceback changes nothing that is observed here).
   `_api_entered` is a `threading.local`: one Boolean per thread.  Nodes are object numbers, paths are texts.  Lean core only.
 -/
 namespace AY.ErrWrap
@@ -151,7 +152,7 @@ def wrap (fl : Flags) (ty : AyCls) (site : Site) (e : Exc) : Exc :=
 
 /-- `raise type(e)(error_msg=e.error_msg, node=e.node, path=e.path, extra_node=e.extra_node, note=e.note) from reason` -/
 def recreate (fl : Flags) (e : Exc) : Exc :=
-  .mk e.cls "" e.pl (if fl.includeOriginal then e.context else none) (some e) true
+  .mk e.cls "" e.pl (if fl.includeOriginal then e.cause else none) (some e) true
 
 /-- a computation in one thread: from the thread's `_api_entered.value` to an outcome and the new value -/
 abbrev Comp (α : Type) := Bool → Except Exc α × Bool
